@@ -11,15 +11,15 @@ CLAIMS = {
    note="Trusts go/ssa and the VTA call graph; 64-bit int; sanitizer table (CellID.IsValid). Does not decide nil-dereference/division panics on decoded-but-degenerate geometry.",
    design="DESIGN.md section 3 R-ALLOC/R-INDEX/R-TERM/R-STICKY, section 4 C15"),
  "C14": dict(
-   technique="static analysis: lockset / lock-order analysis over go/ssa + VTA call graph (atomic-only status word, balanced mutex, re-entrancy, publish-last ordering, who-may-write shared index state), global-state scan",
-   text="Race freedom of concurrent read-only queries reduced to its structural conditions, decided for every function of the library: ShapeIndex.status only via sync/atomic; mutex balanced on all paths and never re-acquired from its own critical section; fast path only after an atomic load observed 'fresh'; 'fresh' published after the updates and before unlock; cellMap/cells and the pending bookkeeping written only under the mutex or by documented single-threaded mutators; no package-level variable written after init. Holds for every schedule because it establishes the lockset and publication order rather than exploring interleavings.",
+   technique="static analysis: lockset / lock-order analysis over go/ssa + VTA call graph (atomic-only status word, balanced mutex, re-entrancy, publish-last ordering, who-may-write shared index state), read-only effect analysis with freshness, iterator typestate, global-state scan",
+   text="Race freedom of concurrent read-only queries reduced to its structural conditions, decided for every function of the library: ShapeIndex.status only via sync/atomic; mutex balanced on all paths and never re-acquired from its own critical section; fast path only after an atomic load observed 'fresh'; 'fresh' published after the updates and before unlock; cellMap/cells and the pending bookkeeping written only under the mutex or by documented single-threaded mutators; no function reachable from a read-only entry point stores into a shared geometry/index object it did not allocate itself; every iterator applies pending updates before reading the cell list; no package-level variable written after init. Holds for every schedule because it establishes the lockset and publication order rather than exploring interleavings.",
    note="Trusts the Go memory model for sync/atomic and sync.Mutex, go/ssa and the VTA call graph. Does not decide serial equivalence of the answers. Known finding D3 (lock re-entry on incremental update) is listed in known_findings.json.",
-   design="DESIGN.md section 3 R-LOCK/R-WRITERS/R-GLOBAL, section 4 C14"),
+   design="DESIGN.md section 3 R-LOCK/R-WRITERS/R-READONLY/R-SYNCED/R-GLOBAL, section 4 C14"),
  "C13": dict(
-   technique="static analysis: call-graph reachability of lock re-entry, unimplemented/panic sites and empty stubs from the public API; global-state scan",
-   text="History independence reduced to structural conditions: no call path from a critical section re-enters the index mutex (no hang), no 'not implemented' panic or empty stub is reachable from the public API, and no package-level state is written after init.",
+   technique="static analysis: call-graph reachability of lock re-entry / unimplemented panics / empty stubs; per-field must-define-before-use of query scratch state; reset-completeness, options save/restore and freshness (escape) analysis over go/ssa",
+   text="History independence reduced to structural conditions: no call path from a critical section re-enters the index mutex (no hang); no 'not implemented' panic or empty stub is reachable from the public API; ShapeIndex.Reset assigns every field an operation can change; every EdgeQuery field a query writes is re-assigned before it is read in the next call, reset, or a named cache; configured options are only modified through copies and restored on every exit; every Loop/Polygon creation site establishes its index and the zero-value Polygon is nil-guarded; iterators apply pending updates before reading; no package-level state is written after init.",
    note="Trusts go/ssa and the VTA call graph; tables of argument-contract and defensive panics are confirmed by reading. Known findings D3/D18 are listed in known_findings.json. Does not decide equality of answers across histories.",
-   design="DESIGN.md section 3 R-LOCK(c)/R-PANIC/R-GLOBAL, section 4 C13"),
+   design="DESIGN.md section 3 R-LOCK(c)/R-PANIC/R-RESET/R-SCRATCH/R-OPTS/R-INIT/R-SYNCED/R-GLOBAL, section 4 C13"),
 }
 
 NOT_APPLICABLE = {
